@@ -824,6 +824,19 @@ class Evaluator:
                         base[self.ev(tgt.slice)] = val
                     return None
             raise Unsupported(st)
+        if isinstance(st, ast.AugAssign) and isinstance(st.target, ast.Subscript) and not isinstance(st.target.slice, ast.Slice):
+            # a[i] op= v  on a modelled mutable sequence / dict: index evaluated once, then an item store
+            idx = self.ev(st.target.slice)
+            tmp_i, tmp_v = "__augidx", "__augval"
+            self.env[tmp_i] = idx
+            load = ast.Subscript(value=st.target.value, slice=ast.Name(id=tmp_i, ctx=ast.Load()), ctx=ast.Load())
+            try:
+                self.env[tmp_v] = self.ev(ast.BinOp(left=load, op=st.op, right=st.value))
+                store = ast.Subscript(value=st.target.value, slice=ast.Name(id=tmp_i, ctx=ast.Load()), ctx=ast.Store())
+                return self.step(ast.copy_location(ast.Assign(targets=[store], value=ast.Name(id=tmp_v, ctx=ast.Load())), st))
+            finally:
+                self.env.pop(tmp_i, None)
+                self.env.pop(tmp_v, None)
         if isinstance(st, ast.AugAssign):
             k = st.target.id if isinstance(st.target, ast.Name) else ast.unparse(st.target) if isinstance(st.target, ast.Attribute) else None
             if k is None:
